@@ -146,10 +146,11 @@ def run(ctx):
         else:
             o.holds(rw, sc.def_stmt(G), f"all graph mutators act on `{G} = self._network.G.copy()`")
             rets = [n for n in astx.walk_fn(rw.node) if isinstance(n, ast.Return)]
-            if len(rets) == 1 and rets[0].value is not None and txt(rets[0].value) == G:
-                o.holds(rw, rets[0], f"returns the rewired copy `{G}`")
+            if rets and all(r_.value is not None and txt(r_.value) == G for r_ in rets):
+                o.holds(rw, rets[0], f"returns the rewired copy `{G}`" + (f" (all {len(rets)} exits)" if len(rets) > 1 else ""))
             else:
-                o.violated(rw, rets[0] if rets else rw.node, f"rewire does not return the rewired copy `{G}`")
+                badr = next((r_ for r_ in rets if r_.value is None or txt(r_.value) != G), None)
+                o.violated(rw, badr if badr is not None else rw.node, f"rewire does not return the rewired copy `{G}`")
     if G is None:
         return
 
@@ -656,8 +657,26 @@ def run(ctx):
                     meth = "add" if n.func.attr == "add_edge" else "remove"
                     mates = [s for s in body if isinstance(s, ast.Expr) and isinstance(s.value, ast.Call) and txt(s.value.func) == f"{S}.{meth}"
                              and txt(s.value.args[0]) == f"tuple(sorted({arg}))"]
+                    nested = []
+                    if arg and not mates:
+                        # the mirror call may name its key first (`k = tuple(sorted(e))`) and, for `add`, sit under the test the set's own
+                        # `add` starts with (`if k not in S:`)
+                        for s_ in body:
+                            for c_ in ast.walk(s_):
+                                if isinstance(c_, ast.Call) and txt(c_.func) == f"{S}.{meth}" and c_.args and txt(sc.resolve(c_.args[0])) == f"tuple(sorted({arg}))":
+                                    nested.append((s_, c_))
                     if arg and mates:
                         o.holds(rw, n, f"{G}.{n.func.attr}(*{arg}) is mirrored by {S}.{meth}(tuple(sorted({arg}))) in the same block")
+                    elif nested:
+                        s_, c_ = nested[0]
+                        key_ = txt(c_.args[0])
+                        if isinstance(s_, ast.Expr) and s_.value is c_:
+                            o.holds(rw, n, f"{G}.{n.func.attr}(*{arg}) is mirrored by {S}.{meth}({key_}) in the same block")
+                        elif meth == "add" and isinstance(s_, ast.If) and not s_.orelse and txt(s_.test) in (f"{key_} not in {S}", f"not {key_} in {S}") \
+                                and len(s_.body) == 1 and isinstance(s_.body[0], ast.Expr) and s_.body[0].value is c_:
+                            o.holds(rw, n, f"{G}.add_edge(*{arg}) is mirrored by {S}.add({key_}) under `{txt(s_.test)}` (the test {S}.add itself starts with)")
+                        else:
+                            o.undecided(f"{S}.{meth}({key_}) that mirrors {G}.{n.func.attr}(*{arg}) is conditional", rw, c_)
                     else:
                         o.violated(rw, n, f"{G}.{n.func.attr}(*{arg}) has no matching {S}.{meth}(tuple(sorted({arg}))) in the same block: later draws return edges that "
                                           "no longer exist / miss new edges")
